@@ -77,7 +77,11 @@ def compare_result(L, p, f, quals, type_bytes):
         return acc
     L.check('qualifiers == hook\'s qualifiers with empty ones removed and checksum canonicalised',
             b_and(*[b_and(bytes_eq_term(k1, k2), bytes_eq_term(v1, v2)) for (k1, v1), (k2, v2) in zip(acc['quals'], quals)]))
-    chk_invariants(L, 'Shape', p, acc, builtin=False)      # C04 for user-supplied type parameters
+    L.in_c04 = True          # (C04 reuses this family and keeps only the obligations raised in this span)
+    try:
+        chk_invariants(L, 'Shape', p, acc, builtin=False)      # C04 for user-supplied type parameters
+    finally:
+        L.in_c04 = False
     return acc
 
 
@@ -140,9 +144,8 @@ def h_parse(L, parts, conv_ok, hook):
             L.fail('the conversion receives something else than the type substring')
         else:
             L.check('conversion argument == type substring as written', bytes_eq_term(raw, convs[0][1]))
-    if not early and 'noname' not in R.defects and not convs:
-        if not (R.defects - {'utf8', 'slash', 'dots', 'qual'}) and not ({'qual', 'utf8', 'slash', 'dots'} & R.defects):
-            L.fail('the conversion is never invoked for a well-formed string')
+    # (a well-formed string for which the conversion is never invoked cannot yield a PURL: that is C02's refusal of a legal
+    #  spelling, not a breach of the call protocol, so nothing is demanded here)
     # ---- errors are returned unchanged
     if convs and not conv_ok:
         if got_err != 'Conv':
